@@ -147,6 +147,9 @@ func (f *freeRun) install(vm *goja.Runtime) {
 		}
 		f.mu.Unlock()
 	})
+	vm.Set("__early", func(what string) {
+		f.fail("free-timer-fired-early", "the callback of "+what+" ran within seconds of being set (or the call that set it threw)")
+	})
 	vm.Set("__busy", func(us int) {
 		t := time.Now()
 		for time.Since(t) < time.Duration(us)*time.Microsecond {
@@ -500,12 +503,37 @@ func freeCount(r *lib.Rand) *freeRun {
 		}
 	}
 	selfClr := r.Chance(50)
+	// delays from an hour up to anything a script can write: none of these timers may fire during the scenario
+	far := []string{"3600000", "3600000", "1e13", "2**53", "9223372036854", "9223372036855", "18446744073710", "18446744073711", "27670116110564", "36893488147420",
+		"55340232221129", "1.8446744073709552e19", "1e300", "Infinity", "4294967296", "2**32*1000", "2**63", "9007199254740993"}
+	// calls that throw (or are refused) set nothing: the count must not see them
+	duds := []string{
+		"try { setTimeout(function(){ __early('dud') }, {valueOf: function(){ throw new Error('v') }}) } catch (e) {}",
+		"try { setInterval(function(){ __early('dud') }, Symbol()) } catch (e) {}",
+		"try { setTimeout(function(){ __early('dud') }, {valueOf: function(){ throw 1 }}, 1, 2) } catch (e) {}",
+		"try { setInterval(function(){ __early('dud') }, {toString: function(){ throw 1 }, valueOf: undefined}) } catch (e) {}",
+		"try { setTimeout() } catch (e) {}", "try { setInterval(1, 2) } catch (e) {}", "try { setImmediate({}) } catch (e) {}",
+		"try { setTimeout(function(){ __early('dud') }, 10n) } catch (e) {}",
+	}
+	nd := r.Intn(3)
+	var usedFar, usedDuds []string
 	f.loop.RunOnLoop(func(vm *goja.Runtime) {
+		for i := 0; i < nd; i++ {
+			d := r.Pick(duds)
+			usedDuds = append(usedDuds, d)
+			if _, err := vm.RunString(d); err != nil {
+				f.fail("free-api-call-panicked", "script "+d+": "+err.Error())
+			}
+		}
 		for i := 0; i < j; i++ {
-			vm.RunString("setTimeout(function(){}, 3600000)")
+			d := r.Pick(far)
+			usedFar = append(usedFar, d)
+			vm.RunString("setTimeout(function(){ __early('setTimeout " + d + "') }, " + d + ")")
 		}
 		for i := 0; i < iv; i++ {
-			vm.RunString("setInterval(function(){}, 3600000)")
+			d := r.Pick(far)
+			usedFar = append(usedFar, d)
+			vm.RunString("setInterval(function(){ __early('setInterval " + d + "') }, " + d + ")")
 		}
 		for i := 0; i < im; i++ {
 			// an immediate that clears itself while running, and once more afterwards: completed work is not counted again
@@ -520,7 +548,7 @@ func freeCount(r *lib.Rand) *freeRun {
 		return f
 	}
 	want := k - c + j + iv
-	f.params = fmt.Sprintf("go-timeouts=%d cleared=%d js-timeouts=%d js-intervals=%d immediates=%d self-clearing=%v", k, c, j, iv, im, selfClr)
+	f.params = fmt.Sprintf("go-timeouts=%d cleared=%d js-timeouts=%d js-intervals=%d immediates=%d self-clearing=%v delays=%v calls-that-set-nothing=%q", k, c, j, iv, im, selfClr, usedFar, usedDuds)
 	for round := 0; round < 2; round++ {
 		got, ok := f.stop(r)
 		if !ok {
@@ -604,6 +632,77 @@ func freeStopDuringRun(r *lib.Rand) *freeRun {
 	f.start()
 	f.sync("restart")
 	time.Sleep(2 * time.Millisecond)
+	f.finish()
+	return f
+}
+
+// run-ends-with-backlog: the last piece of work of a Run() (the function itself, its last timeout or its last immediate) submits
+// functions with RunOnLoop; Run() winds down because no timer is left, with those functions still queued. Another goroutine calls
+// Stop() around that moment (it returns at once when the loop has already marked itself stopped) and, in half of the runs, starts
+// the loop again at once: nothing may begin between the return of Stop() and the restart, nothing may overlap afterwards, and
+// every accepted function runs exactly once, in order, after the restart
+func freeRunEndsWithBacklog(r *lib.Rand) *freeRun {
+	from, nq, busy, delay := r.Intn(3), 3+r.Intn(30), 20+r.Intn(300), r.Intn(400)
+	restartAtOnce := r.Chance(50)
+	f := newFreeRun("run-ends-with-backlog", fmt.Sprintf("submitted-from=%s functions=%d each-busy=%dus stop-after=%dus restart-at-once=%v",
+		[]string{"Run function", "last timeout", "last immediate"}[from], nq, busy, delay, restartAtOnce))
+	f.loop.Run(func(vm *goja.Runtime) { f.install(vm) })
+	atomic.StoreInt32(&f.stopped, 0)
+	submitted := make(chan struct{})
+	runDone := make(chan struct{})
+	go func() {
+		defer close(runDone)
+		defer func() {
+			if x := recover(); x != nil {
+				f.fail("free-api-call-panicked", fmt.Sprintf("Run(): %v", x))
+			}
+		}()
+		f.loop.Run(func(vm *goja.Runtime) {
+			f.enter("Run fn")
+			vm.Set("__last", func() {
+				for q := 0; q < nq; q++ {
+					f.submit(0, q, func(vm *goja.Runtime) { vm.RunString(fmt.Sprintf("__busy(%d)", busy)) })
+				}
+				close(submitted)
+			})
+			switch from {
+			case 0:
+				vm.RunString("__last()")
+			case 1:
+				vm.RunString("setTimeout(function(){ __t(1) }, 0); setTimeout(function(){ __t(2); __last() }, 2)")
+			default:
+				vm.RunString("setImmediate(function(){ setImmediate(function(){ __last() }) })")
+			}
+			f.leave("Run fn")
+		})
+	}()
+	select {
+	case <-submitted:
+	case <-time.After(3 * time.Second):
+		f.fail("free-run-did-not-return", "the last piece of work of Run() did not run within 3 s")
+		return f
+	}
+	time.Sleep(time.Duration(delay) * time.Microsecond)
+	if _, ok := f.stop(r); !ok {
+		return f
+	}
+	if !restartAtOnce {
+		time.Sleep(time.Duration(500+2*busy) * time.Microsecond) // nothing may begin now
+		select {
+		case <-runDone:
+		case <-time.After(3 * time.Second):
+			f.fail("free-run-did-not-return-at-quiescence", "Run() still blocked 3 s after its last timer and Stop()")
+			return f
+		}
+	}
+	f.start()
+	f.sync("restart")
+	select {
+	case <-runDone:
+	case <-time.After(3 * time.Second):
+		f.fail("free-run-did-not-return-at-quiescence", "Run() still blocked 3 s after its last timer and Stop()")
+		return f
+	}
 	f.finish()
 	return f
 }
@@ -996,8 +1095,8 @@ func runFree(r *lib.Rand, n int, profile string, outPath string) ([]lib.ImplFail
 	seen := map[string]bool{}
 	hungScenarios := 0
 	var out []lib.ImplFailure
-	kinds := []func(*lib.Rand) *freeRun{freeLifecycle, freeLifecycle, freeBurst, freeCount, freeStopDuringRun, freeExpiredCleared, freeSelfClear, freeStopNoWaitAtQuiescence, freeTerminateBacklog, freeTerminatedStays, freeRestartWhileStopping, freeChain}
-	bias := map[string][]int{"overlap": {0, 4, 10}, "fifo": {2}, "timers": {6, 5, 6}, "count": {3, 7}, "stop": {4, 7, 11}, "terminate": {5, 8, 9}}[profile]
+	kinds := []func(*lib.Rand) *freeRun{freeLifecycle, freeLifecycle, freeBurst, freeCount, freeStopDuringRun, freeExpiredCleared, freeSelfClear, freeStopNoWaitAtQuiescence, freeTerminateBacklog, freeTerminatedStays, freeRestartWhileStopping, freeChain, freeRunEndsWithBacklog}
+	bias := map[string][]int{"overlap": {0, 4, 10, 12, 12}, "fifo": {2}, "timers": {6, 5, 6}, "count": {3, 7}, "stop": {4, 7, 11, 12}, "terminate": {5, 8, 9}}[profile]
 	for i := 0; i < n; i++ {
 		k := r.Intn(len(kinds))
 		if r.Chance(40) {
@@ -1006,7 +1105,7 @@ func runFree(r *lib.Rand, n int, profile string, outPath string) ([]lib.ImplFail
 		var f *freeRun
 		seed := r.U64()
 		// a crash inside a goroutine of the library cannot be recovered: leave the scenario behind for the replay
-		lib.Breadcrumb(outPath, fmt.Sprintf("free-running scenario %d: kind index %d (0,1 lifecycle; 2 burst; 3 count; 4 stop-during-run; 5 expired-then-cleared; 6 self-clear; 7 stopnowait-at-quiescence; 8 terminate-with-backlog; 9 terminated-stays-terminated; 10 restart-while-stopping; 11 chain), scenario seed %d", i, k, seed))
+		lib.Breadcrumb(outPath, fmt.Sprintf("free-running scenario %d: kind index %d (0,1 lifecycle; 2 burst; 3 count; 4 stop-during-run; 5 expired-then-cleared; 6 self-clear; 7 stopnowait-at-quiescence; 8 terminate-with-backlog; 9 terminated-stays-terminated; 10 restart-while-stopping; 11 chain; 12 run-ends-with-backlog), scenario seed %d", i, k, seed))
 		doneCh := make(chan *freeRun, 1)
 		go func() {
 			var g *freeRun
